@@ -131,6 +131,8 @@ def make_recording(root, rec):
     if sh is not None:
         entries = ["(%d:%s" % (sh[i], e[1:].split(":", 1)[1]) for i, e in enumerate(entries)]
     meta = head + "".join(entries[:nap]) + "\n" + rest
+    if rec.get("prb_type") is not None:
+        meta = re.sub(r"imDatPrb_type=\d+", "imDatPrb_type=%d" % rec["prb_type"], meta)
     if nap != 384:
         # acqApLfSy keeps describing the 384 acquired channels; the sns* keys describe the file
         meta = re.sub(r"nSavedChans=\d+", "nSavedChans=%d" % (nap + 1), meta)
@@ -144,7 +146,8 @@ def make_recording(root, rec):
 # the implementation
 # --------------------------------------------------------------------------
 REC_KEYS = ("kind", "ns", "content", "shankmap", "fs", "seed", "sync_off", "sync_mul", "nshank",
-            "reuse", "nsamples", "offset", "strpath", "floatw", "compress", "nap")
+            "reuse", "nsamples", "offset", "strpath", "floatw", "compress", "nap",
+            "prb_type", "extra_none", "post_check", "no_assert_shanks", "overwrite_default")
 
 
 def rec_n(rec):
@@ -163,13 +166,13 @@ def _alarm(signum, frame):
 CONVERSION_TIMEOUT = int(__import__("os").environ.get("C12_CONV_TIMEOUT", "90"))
 
 
-def impl_convert(ap, W, extra, rec, state):
+def impl_convert(ap, W, extra, rec, state, iw=0):
     """impl_convert_inner under a wall-clock limit (an endless window loop must not hang the check)."""
     import signal
     old = signal.signal(signal.SIGALRM, _alarm)
     signal.alarm(CONVERSION_TIMEOUT)
     try:
-        return impl_convert_inner(ap, W, extra, rec, state)
+        return impl_convert_inner(ap, W, extra, rec, state, iw)
     except ConversionTimeout as e:
         state.pop("conv", None)
         return {"files": [], "error": "ConversionTimeout: %s" % e}
@@ -178,7 +181,7 @@ def impl_convert(ap, W, extra, rec, state):
         signal.signal(signal.SIGALRM, old)
 
 
-def impl_convert_inner(ap, W, extra, rec, state):
+def impl_convert_inner(ap, W, extra, rec, state, iw=0):
     """Runs the real NP2Converter on `ap` with window W.  Returns per-output-file observations read
     back from the bytes and metadata of the lf files, or {'error': ...}.  With rec['reuse'] the same
     converter object (state['conv']) is used for every window size of the group:
@@ -197,18 +200,26 @@ def impl_convert_inner(ap, W, extra, rec, state):
         cm = spikeglx._map_channels_from_meta(m)
         out["shanks"] = [int(s) for s in cm["shank"]]
         out["version"] = {"NP2.1": 21, "NP2.4": 24}.get(spikeglx._get_neuropixel_version_from_meta(m), 0)
+        out["prb_type"] = int(m["imDatPrb_type"])
         if conv is None:
-            conv = NP2Converter(str(ap) if rec.get("strpath") else ap, post_check=False,
+            conv = NP2Converter(str(ap) if rec.get("strpath") else ap, post_check=bool(rec.get("post_check")),
                                 compress=bool(rec.get("compress")))
             if rec.get("reuse"):
                 state["conv"] = conv
         nwindow = None if W == 60000 else (float(W) if rec.get("floatw") else W)
+        if rec.get("extra_none") and iw == 0:
+            extra = None
         conv.init_params(nsamples=rec.get("nsamples"), nwindow=nwindow, extra=extra, nshank=rec["nshank"])
-        if rec.get("offset") is not None:
-            status = conv._process_NP21(overwrite=True, offset=rec["offset"])
+        if rec.get("offset") is not None or rec.get("no_assert_shanks"):
+            status = conv._process_NP21(overwrite=True, offset=rec.get("offset") or 0,
+                                        assert_shanks=not rec.get("no_assert_shanks"))
+        elif rec.get("overwrite_default") and iw == 0:
+            status = conv.process()
         else:
             status = conv.process(overwrite=True)
         out["status"] = int(status)
+        if out["status"] == -1:            # "Meta file is not of type NP2.1 or NP2.4, cannot process"
+            return out
         for sh, info in conv.shank_info.items():
             f = Path(info["lf_file"])
             fo = {"sh": int(sh[5:]), "chns": [int(c) for c in info["chns"]], "path": str(f)}
@@ -419,13 +430,17 @@ def with_cols(obs):
 def enc_input(rec, W, obs, shs):
     am = obs["ap_meta"]
     nominal = 1 if (rec["fs"] == "30000" and rec["ns"] % 12 != 6) else 0      # tie: the float product decides
-    return [rec["ns"], rec_n(rec), rec.get("offset") or 0, W, obs["version"], meta_ns_of(am), nominal, with_cols(obs)] + am["acq"] + am["sns"] + \
-        [am["nsaved"], am["fsize"], am["rate"], am["subset_hi"], len(shs)] + shs + obs["shanks"]
+    nshank = [int(v) for v in (rec["nshank"] or [])]
+    return [rec["ns"], rec.get("nsamples") or 0, rec.get("offset") or 0, 0 if W == 60000 else W, obs["prb_type"],
+            meta_ns_of(am), nominal, with_cols(obs), 0 if rec.get("no_assert_shanks") else 1] + am["acq"] + am["sns"] + \
+        [am["nsaved"], am["fsize"], am["rate"], am["subset_hi"], len(nshank)] + nshank + obs["shanks"]
 
 
 def enc_output(rec, obs):
     if "error" in obs:
         return [0]
+    if obs.get("status") == -1:
+        return [2]
     files = obs["files"]
     f0 = files[0]
     nrows = f0["nbytes"] // (2 * len(f0["chns"]))
@@ -496,7 +511,9 @@ def gen_recordings(ctx):
         r = {"kind": kind, "ns": ns, "content": content, "shankmap": shankmap, "fs": fs,
              "seed": rng.randrange(2 ** 31), "sync_off": rng.randrange(65536), "sync_mul": mul,
              "windows": windows, "nshank": nshank,
-             "reuse": False, "nsamples": None, "offset": None, "strpath": False, "floatw": False, "compress": False, "nap": None}
+             "reuse": False, "nsamples": None, "offset": None, "strpath": False, "floatw": False, "compress": False,
+             "nap": None, "prb_type": None, "extra_none": False, "post_check": False, "no_assert_shanks": False,
+             "overwrite_default": False}
         r.update(opt)
         recs.append(r)
 
@@ -513,8 +530,19 @@ def gen_recordings(ctx):
             ns += rng.randrange(1, 12)
         ws = rng.sample(WINDOWS[:-1], 3) if i % 3 else [rng.choice([588, 600, 612]), rng.choice([1200, 1812]), 60000]
         fs = "30000" if i % 2 == 0 else "29999.757983"
+        extra_opt = {}
+        if i == 0:
+            extra_opt = {"post_check": True, "extra_none": True, "overwrite_default": True}
+        if i == 1:
+            extra_opt = {"prb_type": 1030, "overwrite_default": True}
+        if i == 2:
+            extra_opt = {"prb_type": 2013}
+        if i == 3:
+            extra_opt = {"nshank": [3, 1]}
+        if i == 5:
+            extra_opt = {"nshank": [1, 0], "extra_none": True}
         rec(kind, ns, contents[i % len(contents)], smap, fs, ws, reuse=(i % 2 == 1) or i == 0,
-            strpath=(i % 3 == 1), floatw=(i % 4 == 2))
+            strpath=(i % 3 == 1), floatw=(i % 4 == 2), **extra_opt)
     # (a') the default window (2 s) with a recording long enough for several windows
     #     (quick: saved with a 48-channel subset to keep the file small)
     rec("NP21", (190000 if ctx.thorough() else 61000) + rng.randrange(1, 12), "walk", "fixture", "29999.757983", [60000],
@@ -535,7 +563,7 @@ def gen_recordings(ctx):
     if not ctx.thorough():
         keep = [b for b in bl if b[0] in (1, 143, 144, 145, 287, 288, 289, 576, 577, 588, 589)]
         rest = [b for b in bl if b not in keep]
-        bl = keep + rng.sample(rest, 36)
+        bl = keep + rng.sample(rest, 24)
     bynsmall = {}
     for ns, w in bl:
         bynsmall.setdefault(ns, []).append(w)
@@ -548,7 +576,7 @@ def gen_recordings(ctx):
         for par in (0, 1):
             q = 2 * rng.randrange(30, 60) + par
             rec("NP21" if (r + par) % 2 else "NP24", 12 * q + r, contents[(r + par) % len(contents)], "fixture",
-                "30000" if r % 2 else "29999.757983", [588, 6000],
+                "30000" if r % 2 else "29999.757983", [588, 6000] if par == 0 or ctx.thorough() else [588],
                 nshank=None if (r + par) % 2 else [rng.randrange(2)], reuse=bool(par),
                 nap=None if ctx.thorough() or r % 3 == 0 else 96)
     # (b'') init_params(nsamples=n) and _process_NP21(offset=o): the stream is derived from AP samples [o, o+n)
@@ -557,7 +585,7 @@ def gen_recordings(ctx):
         n = rng.randrange(1300, 2400)
         o = [0, 12, rng.randrange(1, 200), nsf - n][i % 4]
         rec("NP21", nsf, contents[i % len(contents)], "fixture", "30000", [rng.choice([588, 600]), 1200],
-            nsamples=n, offset=o, reuse=(i % 2 == 1))
+            nsamples=n, offset=o, reuse=(i % 2 == 1), no_assert_shanks=(i == 2))
     rec("NP24", rng.randrange(2600, 4000), "noise", "fixture", "30000", [600, 1812], nsamples=rng.randrange(1300, 2400))
     #      outside the domain (offset + n beyond the file: NumPy clips the last reads): model agreement only
     rec("NP21", 2000, "walk", "fixture", "30000", [600, 1200], nsamples=2000, offset=100)
@@ -569,6 +597,13 @@ def gen_recordings(ctx):
         ns = rng.randrange(1400, 2600)
         rec(kind, ns + (ns % 12 == 0), contents[(i + 1) % len(contents)], smap, "30000" if i % 2 else "29999.757983",
             [rng.choice([588, 612]), 1200], nap=nap, reuse=(i == 1))
+    # (b4) probe types: not NP2 (status -1, nothing written); a 4-shank map declared NP2.1 (assert); a single-shank
+    #      map declared NP2.4 (one shank folder); nshank subset with repeated conversions
+    rec("NP21", rng.randrange(700, 1500), "walk", "fixture", "30000", [600], prb_type=0)
+    rec("NP24", rng.randrange(700, 1500), "noise", "fixture", "30000", [600, 1200], prb_type=1100)
+    rec("NP24", rng.randrange(700, 1500), "walk", "fixture", "30000", [600], prb_type=21)
+    rec("NP21", rng.randrange(1300, 1900), "tones", "fixture", "30000", [612], prb_type=24)
+    rec("NP24", rng.randrange(1300, 1900), "steps", "scattered", "29999.757983", [588, 1200], nshank=[2, 0, 3], reuse=True)
     # (c) inadmissible window sizes (assert in init_params)
     for w in (590, 1201, 1199, 2405):
         rec("NP21", rng.randrange(700, 1500), "walk", "fixture", "30000", [w])
@@ -594,7 +629,7 @@ def run_group(ctx, rec, tmp, cases, meas, dist):
             desc["run_index"] = iw if rec.get("reuse") else 0
             if rec.get("reuse"):
                 desc["windows_before"] = rec["windows"][:iw]
-            obs = impl_convert(ap, W, "_w%d" % iw, rec, state)
+            obs = impl_convert(ap, W, "_w%d" % iw, rec, state, iw)
             admissible = W % RATIO == 0 and W > OVERLAP
             dist["conversions"] += 1
             dist[rec["kind"]] += 1
@@ -607,6 +642,9 @@ def run_group(ctx, rec, tmp, cases, meas, dist):
                         ctx.disagree("inadmissible window: expected the AssertionError of init_params, got " + obs["error"], desc)
                 elif not in_domain:
                     pass
+                elif obs.get("version") == 21 and len(set(obs.get("shanks") or [0])) != 1 and \
+                        not rec.get("no_assert_shanks") and obs["error"].startswith("AssertionError"):
+                    dist["np21_multishank_refused"] = dist.get("np21_multishank_refused", 0) + 1   # the converter's own assert
                 elif n < TAPER:
                     ctx.fail("conversion raises on a recording shorter than the %d-sample taper (%s): no LFP stream "
                              "is produced" % (TAPER, obs["error"][:80]), desc, {"kind": "short_recording_raises"})
@@ -614,9 +652,15 @@ def run_group(ctx, rec, tmp, cases, meas, dist):
                     ctx.fail("conversion raised " + obs["error"], desc, {"kind": "exception"})
                 if "ap_meta" not in obs or "shanks" not in obs:
                     continue
+            elif obs.get("status") == -1:
+                dist["not_np2_refused"] += 1          # outside the property: no stream is claimed for other probes
+                if not admissible:
+                    ctx.disagree("inadmissible window accepted", desc)
             else:
                 if not admissible:
                     ctx.disagree("inadmissible window accepted", desc)
+                if obs.get("status") != 1:
+                    ctx.fail("process() returned %r without producing the stream" % (obs.get("status"),), desc, {"kind": "status"})
                 if in_domain:
                     bad = []
                     for fo in obs["files"]:
@@ -674,7 +718,7 @@ def run_group(ctx, rec, tmp, cases, meas, dist):
 
 
 NEW_DIST = {"conversions": 0, "NP21": 0, "NP24": 0, "raised": 0, "inadmissible_window": 0,
-            "reused_converter_runs": 0, "clipped_out_of_domain": 0}
+            "reused_converter_runs": 0, "clipped_out_of_domain": 0, "not_np2_refused": 0}
 
 
 def run(ctx):
@@ -717,6 +761,10 @@ def run(ctx):
     dist["ns_residues_mod_12"] = sorted({c["desc"]["ns"] % 12 for c in cases})
     dist["with_nsamples_or_offset"] = sum(1 for c in cases if c["desc"]["nsamples"] or c["desc"]["offset"] is not None)
     dist["saved_channel_subset"] = sum(1 for c in cases if c["desc"].get("nap"))
+    dist["nshank_subsets"] = sum(1 for c in cases if c["desc"].get("nshank") and len(c["desc"]["nshank"]) > 1)
+    dist["commercial_probe_types"] = sum(1 for c in cases if c["desc"].get("prb_type") in (1030, 2013))
+    dist["post_check_true"] = sum(1 for c in cases if c["desc"].get("post_check"))
+    dist["default_overwrite_and_extra"] = sum(1 for c in cases if c["desc"].get("overwrite_default") or c["desc"].get("extra_none"))
     dist["compress_true"] = sum(1 for c in cases if c["desc"]["compress"])
     dist["str_path"] = sum(1 for c in cases if c["desc"]["strpath"])
     dist["float_window"] = sum(1 for c in cases if c["desc"]["floatw"])
